@@ -736,3 +736,11 @@ CHECKS["C16"]["text"] += (
     " After a scatter request the caller overwrites the arrays it was "
     "handed; the repeated identical request must return events of the "
     "dataset again.")
+CHECKS["C15"]["text"] += (
+    " The saved shapes include a star with twelve vertices; the loaded "
+    "vertices are compared as well.")
+CHECKS["C18"]["text"] += (
+    " Densely sampled ellipses at three places of a channel image, three "
+    "pixel sizes and both orientations: the volume with fix_orientation is "
+    "positive, the same for both orientations, the plain volume up to the "
+    "sign and within 1% of the ellipsoid's.")
